@@ -889,7 +889,60 @@ def m_opt_unwrap_or(mach, name, args):
     return [(T(), "ret", opt.fields[0] if opt.variant in ("Some", "Ok") else d)]
 
 
+def m_wrapping(kind):
+    def f(mach, name, args):
+        a, b = args
+        return [(T(), "ret", {"add": a + b, "sub": a - b, "mul": a * b}[kind])]
+    return f
+
+
+def m_overflowing(kind):
+    def f(mach, name, args):
+        a, b = args
+        return [(T(), "ret", _with_overflow(kind)(a, b, False))]
+    return f
+
+
+def m_ord_minmax(kind):
+    def f(mach, name, args):
+        a, b = args
+        if not (z3.is_bv(a) and z3.is_bv(b)):
+            raise NotMine()
+        return [(T(), "ret", (z3.If(z3.UGT(a, b), a, b) if kind == "max" else z3.If(z3.ULT(b, a), b, a)))]
+    return f
+
+
+def m_abs_diff(mach, name, args):
+    a, b = args
+    return [(T(), "ret", z3.If(z3.UGE(a, b), a - b, b - a))]
+
+
+def m_is_some(which):
+    def f(mach, name, args):
+        o = args[0]
+        while isinstance(o, Ref):
+            o = o.val
+        if not isinstance(o, Adt) or o.variant not in ("Some", "None", "Ok", "Err"):
+            raise Unsupported("is_some/is_none on %r" % (o,))
+        yes = o.variant in ("Some", "Ok")
+        return [(T(), "ret", z3.BoolVal(yes if which else not yes))]
+    return f
+
+
 CORE_MODELS = {
+    r"^core::num::<impl u\w+>::wrapping_add$": m_wrapping("add"),
+    r"^core::num::<impl u\w+>::wrapping_sub$": m_wrapping("sub"),
+    r"^core::num::<impl u\w+>::wrapping_mul$": m_wrapping("mul"),
+    r"^core::num::<impl u\w+>::overflowing_add$": m_overflowing("add"),
+    r"^core::num::<impl u\w+>::overflowing_sub$": m_overflowing("sub"),
+    r"^core::num::<impl u\w+>::overflowing_mul$": m_overflowing("mul"),
+    r"^core::num::<impl u\w+>::abs_diff$": m_abs_diff,
+    r"^<u\w+ as Ord>::max$": m_ord_minmax("max"),
+    r"^<u\w+ as Ord>::min$": m_ord_minmax("min"),
+    r"^Option::<.*>::is_some$": m_is_some(True),
+    r"^Option::<.*>::is_none$": m_is_some(False),
+    r"^Result::<.*>::is_ok$": m_is_some(True),
+    r"^Result::<.*>::is_err$": m_is_some(False),
     r"^core::num::<impl \w+>::checked_add$": m_checked("add"),
     r"^core::num::<impl \w+>::checked_sub$": m_checked("sub"),
     r"^core::num::<impl \w+>::checked_mul$": m_checked("mul"),
